@@ -18,6 +18,7 @@ type worldBackend struct {
 	Tables   map[string]*backend.Table `json:"tables"`
 	Sources  []string                  `json:"sources"` // "self" = this backend's socket, "dead" = a path nobody listens on, "other:<id>"
 	Fallback []string                  `json:"fallback"`
+	Section  string                    `json:"section"`
 }
 
 type worldSpec struct {
@@ -95,7 +96,7 @@ func newWorld(spec *worldSpec, scratch string) (*world, error) {
 		if name == "" {
 			name = "Backend " + wb.ID
 		}
-		conns = append(conns, lmd.VerifConn{ID: wb.ID, Name: name, Source: resolve(wb.ID, src), Fallback: resolve(wb.ID, wb.Fallback), Flags: wb.Flags})
+		conns = append(conns, lmd.VerifConn{ID: wb.ID, Name: name, Source: resolve(wb.ID, src), Fallback: resolve(wb.ID, wb.Fallback), Flags: wb.Flags, Section: wb.Section})
 	}
 	wld.inst = lmd.VerifNewWorld(&spec.Config, conns)
 	wld.cfg = &spec.Config
